@@ -11,9 +11,29 @@ def tname : Target → String
 
 def strs (l : List String) : Json := Json.arr (l.map (fun (s : String) => (s : Json))).toArray
 
+/-- bootnode scene -/
+def handleBoot (inp impl : Json) : CaseResult :=
+  let o := bootScenario nodeWire (jbool inp "staked")
+  let m := mkObj [
+    ("started", true),
+    ("stake_reads_at", strs (o.stakeReadsAt.map tname)),
+    ("stake_read_by", strs ["bootnode-node"]),
+    ("other_reads", strs []),
+    ("boot_admitted_provider", o.admitted),
+    ("boot_blocked_provider", o.blocked)]
+  let same (k : String) : Bool := (jobj impl k).compress == (jobj m k).compress
+  let keys := ["started", "stake_reads_at", "stake_read_by", "other_reads", "boot_admitted_provider", "boot_blocked_provider"]
+  let bad := keys.filter (fun k => !same k)
+  { model := m, spec := bad.isEmpty && jstr impl "err" == "",
+    why := if jstr impl "err" != "" then "whole-node-scenario-failed: " ++ jstr impl "err"
+      else match bad with
+        | [] => ""
+        | k :: _ => "whole-node-wiring-differs-at-" ++ k }
+
 /-- whole-node scenario (tag "nodewire"): the model's outcome under `nodeWire`, rendered with the
 harness's key names; extra implementation keys are checked by the spec below -/
 def handle (inp impl : Json) : CaseResult :=
+  if jstr inp "scene" == "bootnode" then handleBoot inp impl else
   let shape := jstr inp "bid_shape"
   let wd : World := ⟨jbool inp "staked", jbool inp "allowed", shape == "" || shape == "valid", jstr inp "engine" != "reject"⟩
   let o := scenario nodeWire wd
@@ -41,11 +61,13 @@ def handle (inp impl : Json) : CaseResult :=
     ("stake_tx_at", if ops && opTxSeen fate then "provider-node:" ++ tname nodeWire.stakeOp ++ ".registerAndStake:requested-value" else ""),
     ("prepay_tx_at", if ops && opTxSeen fate then "bidder-node:" ++ tname nodeWire.prepayOp ++ ".prepay:requested-value" else ""),
     ("stake_reported", if ops then report else ""),
-    ("prepay_reported", if ops then report else "")]
+    ("prepay_reported", if ops then report else ""),
+    ("provider_nonces_ok", true),
+    ("cancel_unknown_reported", if ops then "error" else "")]
   let same (k : String) : Bool := (jobj impl k).compress == (jobj m k).compress
   let keys := ["started", "stake_reads_at", "allowance_reads_at", "other_reads", "stake_read_by", "allowance_read_by",
     "commit_txs_at", "commit_tx_from", "other_txs", "commitments", "commit_matches_tx", "provider_address_ok",
-    "engine_saw", "api_refused", "stake_tx_at", "prepay_tx_at", "stake_reported", "prepay_reported"]
+    "engine_saw", "api_refused", "stake_tx_at", "prepay_tx_at", "stake_reported", "prepay_reported", "provider_nonces_ok", "cancel_unknown_reported"]
   let bad := keys.filter (fun k => !same k)
   { model := m, spec := bad.isEmpty && jstr impl "err" == "",
     why := if jstr impl "err" != "" then "whole-node-scenario-failed: " ++ jstr impl "err"
